@@ -382,16 +382,7 @@ def run_check(pid, spec, tier, seed, t0):
     import registry
     violations = []   # list of (replay_path, suffix)
     known_lines = []
-    # 1. translator + proofs
-    okg, outg = gen_step()
-    if not okg:
-        raise MachineryError('translator failed: ' + outg[-2000:])
-    if spec.get('no_coq') and not os.path.exists(os.path.join(COQ, 'Props', pid + '.v')):
-        cq = dict(ok=True, obligations=0, discharged=0, failing=[], log='', assumptions={})
-    else:
-        cq = coq_step(pid)
-    log('coq: %d/%d obligations discharged%s' % (cq['discharged'], cq['obligations'], '' if cq['ok'] else ' -- ' + '; '.join(cq['failing'])))
-    # 2. harness + driver
+    # 1. harness (rebuilt against /repo's working tree; the translator needs it too)
     okc, outc = cargo_step()
     if not okc:
         # /repo no longer builds with the hooks: nothing can be evaluated
@@ -400,6 +391,15 @@ def run_check(pid, spec, tier, seed, t0):
         write_evidence(pid, tier, seed, spec['level'], dict(explanation='harness build failed', evaluations=0,
                        distinct_nontrivial=0), [], time.time() - t0, 1)
         return 1
+    # 2. translator + proofs
+    okg, outg = gen_step()
+    if not okg:
+        raise MachineryError('translator failed: ' + outg[-2000:])
+    if spec.get('no_coq') and not os.path.exists(os.path.join(COQ, 'Props', pid + '.v')):
+        cq = dict(ok=True, obligations=0, discharged=0, failing=[], log='', assumptions={})
+    else:
+        cq = coq_step(pid)
+    log('coq: %d/%d obligations discharged%s' % (cq['discharged'], cq['obligations'], '' if cq['ok'] else ' -- ' + '; '.join(cq['failing'])))
     oko, outo = ocaml_step()
     if not oko and not os.path.exists(DRV):
         raise MachineryError('extraction/driver build failed: ' + outo)
